@@ -405,6 +405,8 @@ def main(ctx):
                       'theorems of C06/Props.v check against the regenerated gen/VtkTables.v',
                       'do not check', ', '.join(badn) or 'build', found_input=False,
                       signature={'kind': 'proof-broken'})
+    if thorough and proof_ok:
+        ctx.coqchk(f'{PID}/Props.v')
     return ctx.finish()
 
 
